@@ -101,6 +101,19 @@ class PipelineUnit(WeaverUnit):
                 if not rfa_units.adaptive_windows_exact(chk)[2]:
                     continue
             cases.append(c)
+        # a refused recreate request (a factor below 2, fractional or not) on the same object first: the refusal leaves nothing behind,
+        # the pipeline that follows is the one a fresh object would run
+        for i, s in enumerate(rfa_units.STRATS):
+            m = rng.randint(3, 6)
+            c = prog(gens.sorted_x(rng, m), gens.values(rng, m, "int"), s, rng.choice([2, 4]), rng.choice([None, True]), rng.choice(["trapezoid", "rectangle"]), m_for_mk=m)
+            if c["script"][-2]["strategy"] in ("linadapt", "expadapt"):
+                chk = dict(c["script"][-2]); chk["x"], chk["y"] = c["x"], c["y"] + ([c["y"][0]] if c["script"][0]["op"] == "append" else [])
+                if not rfa_units.adaptive_windows_exact(chk)[2]:
+                    continue
+            bad = dict(c["script"][-2]); bad["n"] = [1.5, 1.75, 1, 0, -3, 1.5][i % 6]; bad["invalid"] = "n_below_2"
+            c["script"].insert(len(c["script"]) - 2, bad)
+            c["len"] = len(c["script"])
+            cases.append(c)
         for c_ in cases:
             if "via_2d" not in c_ and rng.random() < 0.15:
                 c_["via_2d"] = True       # the series handed in as one (N, 2) table through Weaver.from_2d_array
@@ -120,7 +133,7 @@ class PipelineUnit(WeaverUnit):
     def oracle(self, c, o):
         F = super().oracle(c, o)
         steps = o.get("steps", [])
-        raised = [s_ for s_ in steps if "exc" in s_]
+        raised = [s_ for s_ in steps if "exc" in s_ and "invalid" not in s_["op"]]
         if o.get("ctor") or not steps or raised or steps[-1]["op"]["op"] != "integral_match":
             if raised:       # any step of the valid pipeline, not only the last one
                 F.append(Failure(aspect="pipeline-raises", what="%s of the recreate + match pipeline raised %s (x=%s y=%s script=%s)" % (
